@@ -188,11 +188,13 @@ fn gen_swap(rng: &mut Rng) {
         (path, tok)
     };
     let side = |rng: &mut Rng, start_pref: u64| -> (Vec<u64>, u64, u64) {
-        let start = if is_into { rng.below(4) } else { start_pref };
         let len = match rng.below(6) { 0 => 0, 1 => 1, 2 => 2, 3 => 3, _ => rng.below(6) as usize };
-        let avoid = rng.chance(9, 10);
-        let (mut p, mut end) = chain(rng, start, len, avoid);
-        match rng.below(16) {
+        let avoid = rng.chance(19, 20);
+        // a chain starting at a token of the current market; for Into it is walked backwards
+        let (mut p, mut end) = chain(rng, start_pref, len, avoid);
+        let mut start = start_pref;
+        if is_into { p.reverse(); std::mem::swap(&mut start, &mut end); }
+        match rng.below(70) {
             0 => { if !p.is_empty() { let i = rng.below(p.len() as u64) as usize; p[i] = rng.below(8); } } // break the chain
             1 => { p.push(5); }                                   // pure market step
             2 => { end = rng.below(4); }                          // wrong declared output
@@ -201,17 +203,19 @@ fn gen_swap(rng: &mut Rng) {
         }
         (p, start, end)
     };
+    let (cl, cs) = if rng.chance(1, 8) { (cs, cl) } else { (cl, cs) };
     let (p1, t1, e1) = side(rng, cl);
     let (p2, t2, e2) = side(rng, cs);
     if p1.len() + p2.len() > 10 { return gen_swap(rng); }
-    let amt = |rng: &mut Rng| -> u64 { match rng.below(6) { 0 => 0, 1 => 1, 2 => 1_000, _ => 1 + rng.below(2_000_000_000) } };
+    let (p1, p2): (Vec<u64>, Vec<u64>) = if low_balance { (p1.into_iter().filter(|m| *m != cur).collect(), p2.into_iter().filter(|m| *m != cur).collect()) } else { (p1, p2) };
+    let amt = |rng: &mut Rng| -> u64 { match rng.below(24) { 0 | 1 => 0, 2 => 1, 3 => 1_000, 4 => 10_000 + rng.below(100_000), _ => 1_000_000 + rng.below(2_000_000_000) } };
     let (a1, a2) = (amt(rng), amt(rng));
     let tin1 = if rng.chance(9, 10) { Some(t1) } else { None };
     let tin2 = if rng.chance(9, 10) { Some(t2) } else { None };
     // loaders: the distinct path markets except the current one (sometimes one missing / current included / duplicated)
     let mut lids: Vec<u64> = vec![];
     for m in p1.iter().chain(p2.iter()) { if *m != cur && !lids.contains(m) { lids.push(*m); } }
-    match rng.below(20) {
+    match rng.below(60) {
         0 => { if !lids.is_empty() { let i = rng.below(lids.len() as u64) as usize; lids.remove(i); } }
         1 => { lids.push(cur); }
         2 => { if !lids.is_empty() { let x = lids[0]; lids.push(x); } }
@@ -228,11 +232,11 @@ fn gen_swap(rng: &mut Rng) {
     let _ = g9rt::take_invokes();
     let store = env.store;
     let oracle_ref: &'static gmsol_store::states::Oracle = unsafe { &*(&*env.oracle as *const _) };
-    let res = no_panic(move || hk::run_revertible_swap(
+    let res = std::panic::catch_unwind(std::panic::AssertUnwindSafe(move || hk::run_revertible_swap(
         &store, cur_ref, loaders_ref, is_into, oracle_ref, &params,
         (token(e1), token(e2)), (tin1.map(token), tin2.map(token)), (a1, a2),
         ev, 255, true, |r, _m, _s| match r { Ok(x) => Ok(*x), Err(e) => Err(code(e)) },
-    ));
+    ))).ok();
     // a panic inside the program aborts the transaction: reported as Err 77
     let r: std::result::Result<(u64, u64), u32> = match res { Some(Ok(x)) => x, Some(Err(e)) => Err(code(&e)), None => Err(77) };
     let events = g9mk::swap_events(&g9rt::take_invokes());
@@ -242,7 +246,8 @@ fn gen_swap(rng: &mut Rng) {
     let id_of_mt = |k: &Pubkey| (0..8u64).find(|i| market_token(*i) == *k).unwrap_or(99);
     let mkt = |m: u64, bal: &Vec<(u64, u64)>| { let (_, l, s) = TOKS[m as usize]; format!("mkMk {m} {l} {s} {} {}", bal[m as usize].0, bal[m as usize].1) };
     let lds: Vec<String> = lids.iter().map(|m| format!("({}, {}, {})", mkt(*m, &before), b(wrong_store != Some(*m)), b(disabled != Some(*m)))).collect();
-    let hops: Vec<String> = if r.is_ok() { events.iter().map(|(mt, il, i, o)| format!("mkHop {} {} {} {}", id_of_mt(mt), b(*il), i, o)).collect() } else { vec![] };
+    // on failure the events emitted before the failing step are kept: they feed the model's abstract swap
+    let hops: Vec<String> = events.iter().map(|(mt, il, i, o)| format!("mkHop {} {} {} {}", id_of_mt(mt), b(*il), i, o)).collect();
     // on failure nothing may have been committed
     if r.is_err() { assert_eq!(before, after, "a failed swap changed committed balances"); }
     let mut seen: Vec<u64> = vec![];
